@@ -3,12 +3,13 @@
 From Coq Require Import List NArith ZArith.
 From Coq.Strings Require Import Byte.
 From Coq Require Import Extraction ExtrOcamlBasic.
-From GI Require Import Lib.Bytes Gen.CacheConsts Cache.CacheEntry Cache.Cache Cache.CacheFault Cache.CacheConc Cache.CacheHolds Cache.CacheFd.
+From GI Require Import Lib.Bytes Gen.CacheConsts Cache.CacheEntry Cache.Cache Cache.CacheFault Cache.CacheConc Cache.CacheHolds Cache.CacheFd Cache.CacheHash.
 Extraction Language OCaml.
 Extraction "extracted/cache/model.ml" Byte.of_N Byte.to_N
   parse_entry encode_entry entry_size_n hash_size_n path_name
   no_files upd run_seq put get get_file get_bytes get_prog get_file_prog get_bytes_prog output_file_prog put_prog
   honest_reader dmg_truncate dmg_extend dmg_flip dmg_delete dmg_write
   run_f trace_f count_ops put_bytes_prog fds_f fd_leak
+  new_hash hash_write hash_sum subkey_preimage subkey file_hash set_file_hash fh_lookup
   start sched_step run_conc init_sys finished cstep
   c05_holds_on c05_put_holds_on inv_holds_on c12_holds_on c12_post_holds_on.
